@@ -587,17 +587,23 @@ func runC12StateDB(c *vx.Ctx) {
 		BodyMin, BodyMax int
 		NestedOnly       bool // only bodies that contain a nested Snapshot
 		Modes            []string
+		// TxSplit: instead of all sequences, the prefixes are exactly [d1 ; txend ; d2] for all pairs
+		// of data ops: one effect made in an earlier transaction of the block (so it sits in the
+		// objects' pending layer, the journal is empty) and one made in the current transaction
+		TxSplit bool
 	}
 	both, gOnly := []string{"g", "r"}, []string{"g"}
 	plans := []plan{
-		{"prefix<=1,body<=2", 0, 1, 1, 2, false, both},
-		{"prefix==2,body==1", 2, 2, 1, 1, false, gOnly},
-		{"prefix<=1,body==3 with nested snapshot", 0, 1, 3, 3, true, gOnly},
+		{"prefix<=1,body<=2", 0, 1, 1, 2, false, both, false},
+		{"prefix==2,body==1", 2, 2, 1, 1, false, gOnly, false},
+		{"prefix<=1,body==3 with nested snapshot", 0, 1, 3, 3, true, gOnly, false},
+		{"prefix==d1;txend;d2,body==1", 3, 3, 1, 1, false, gOnly, true},
 	}
 	if c.Thorough() {
 		plans = []plan{
-			{"prefix<=1,body<=3", 0, 1, 1, 3, false, both},
-			{"prefix==2,body<=2", 2, 2, 1, 2, false, gOnly},
+			{"prefix<=1,body<=3", 0, 1, 1, 3, false, both, false},
+			{"prefix==2,body<=2", 2, 2, 1, 2, false, gOnly, false},
+			{"prefix==d1;txend;d2,body==1", 3, 3, 1, 1, false, gOnly, true},
 		}
 	}
 	p := c.Part("statedb")
@@ -620,12 +626,20 @@ func runC12StateDB(c *vx.Ctx) {
 		// prefixes of this plan, most telling first: those ending in a transaction boundary
 		// (finalised / pending objects, cleared journal) before the plain ones
 		var prefixes [][]c12Op
-		c12Seqs(prefAlpha, pl.PreMax, func(pre []c12Op) bool {
-			if len(pre) >= pl.PreMin {
-				prefixes = append(prefixes, append([]c12Op{}, pre...))
+		if pl.TxSplit {
+			for _, d1 := range data {
+				for _, d2 := range data {
+					prefixes = append(prefixes, []c12Op{d1, {K: "txend"}, d2})
+				}
 			}
-			return true
-		})
+		} else {
+			c12Seqs(prefAlpha, pl.PreMax, func(pre []c12Op) bool {
+				if len(pre) >= pl.PreMin {
+					prefixes = append(prefixes, append([]c12Op{}, pre...))
+				}
+				return true
+			})
+		}
 		sort.SliceStable(prefixes, func(i, j int) bool {
 			bi := len(prefixes[i]) > 0 && (prefixes[i][len(prefixes[i])-1].K == "txend" || prefixes[i][len(prefixes[i])-1].K == "iroot")
 			bj := len(prefixes[j]) > 0 && (prefixes[j][len(prefixes[j])-1].K == "txend" || prefixes[j][len(prefixes[j])-1].K == "iroot")
